@@ -5,8 +5,10 @@ import ast
 import re
 from typing import Any
 
+from sa.kern import make_evaluator, py_calls
 from sa.report import Ctx
 from sa.srcmodel import FuncInfo, Module, func_body
+from sa.symterm import Env, Poly, Unsupported
 
 BP = "moptipyapps.binpacking2d."
 
@@ -854,170 +856,390 @@ def _sb(b: Any) -> str:
 
 # ------------------------------------------------------------------ D19.2
 def _compact(ctx: Ctx) -> None:
+    """to_compact_str / from_compact_str agree field by field.
+
+    Both functions are expanded path by path with every local inlined
+    (`sa.pathinline`): the writer's list literal and the strings appended
+    per item become token lists (value / separator), the reader's decoded
+    row becomes `conv(data.split(A)[k].split(B)[c])` terms - temporaries,
+    conditional expressions versus if statements and default-then-overwrite
+    idioms make no difference."""
+    from sa.pathinline import Path, flatten_fstring, paths
     repo = ctx.repo
     mod = repo.module(BP + "instance")
     wr = repo.func(mod.name, "Instance.to_compact_str")
     rd = repo.func(mod.name, "Instance.from_compact_str")
-    # writer: the head list and the per-item f-strings
-    head = None
-    item_fields: list[list[str]] = []
-    seps: set[str] = set()
-    for n in ast.walk(wr.node):
-        if isinstance(n, (ast.Assign, ast.AnnAssign)) and isinstance(
-                n.value, ast.List) and head is None:
-            head = []
-            for e in n.value.elts:
-                while isinstance(e, ast.Call) and e.args:
-                    e = e.args[0]
-                head.append(e.attr if isinstance(e, ast.Attribute)
-                            else ast.unparse(e))
-        if isinstance(n, ast.JoinedStr):
-            names = []
-            for v in n.values:
-                if isinstance(v, ast.FormattedValue) and isinstance(
-                        v.value, ast.Name):
-                    if v.value.id.endswith("SEP"):
-                        seps.add(v.value.id)
-                    else:
-                        names.append(v.value.id)
-            item_fields.append(names)
-    # which column does each writer variable come from?
-    col_of: dict[str, str] = {}
-    for n in ast.walk(wr.node):
-        if isinstance(n, (ast.Assign, ast.AnnAssign)) and isinstance(
-                n.value, ast.Subscript) and isinstance(
-                n.value.slice, ast.Tuple):
-            tg = n.targets[0] if isinstance(n, ast.Assign) else n.target
-            c = n.value.slice.elts[1]
-            if isinstance(tg, ast.Name) and isinstance(c, ast.Name):
-                col_of[tg.id] = c.id
-    w_item = [[col_of.get(x, x) for x in f] for f in item_fields]
+    new_fi = repo.func(mod.name, "Instance.__new__")
+    cparams = new_fi.params[1:]
+    cols = {nm: repo.const(mod, ast.Name(id=nm)) for nm in (
+        "IDX_WIDTH", "IDX_HEIGHT", "IDX_REPETITION")}
+
+    def sconst(e: ast.AST) -> str | None:
+        v = repo.const(mod, e) if isinstance(e, (ast.Name, ast.Attribute,
+                                                 ast.Constant)) else None
+        return v if isinstance(v, str) else None
+
+    def iconst(e: ast.AST) -> int | None:
+        v = repo.const(mod, e)
+        return v if isinstance(v, int) and not isinstance(v, bool) else None
+
+    # ================================================================ writer
+    selfn = wr.params[0]
+    wpaths = paths(func_body(wr))
+    head: list[str] | None = None
+    head_var = None
+    w_alts: list[tuple[tuple, list[tuple[str, Any]]]] = []
     join_sep = None
-    for n in ast.walk(wr.node):
-        if isinstance(n, ast.Call) and isinstance(
-                n.func, ast.Attribute) and n.func.attr == "join" and \
-                isinstance(n.func.value, ast.Name):
-            join_sep = n.func.value.id
-    # reader: text[k] -> variable, s[IDX] -> row element
-    r_head: dict[int, str] = {}
-    r_item: list[str] = []
+    w_loop_ok = False
+    w_problems: list[str] = []
+    if len(wpaths) == 1:
+        wp = wpaths[0]
+        ret = next((e for e in wp.events if e.kind == "return"), None)
+        loops = [e for e in wp.events if e.kind == "loop"]
+        # the returned value: SEP.join(<list>)
+        rv = ret.value if ret is not None else None
+        lst_expr = None
+        if isinstance(rv, ast.Call) and isinstance(
+                rv.func, ast.Attribute) and rv.func.attr == "join" and len(
+                rv.args) == 1:
+            join_sep = sconst(rv.func.value)
+            lst_expr = rv.args[0]
+        # the list: a local holding a list literal of the head fields
+        if isinstance(lst_expr, ast.Name) and isinstance(
+                wp.objs.get(lst_expr.id), ast.List):
+            head_var = lst_expr.id
+            head = []
+            for e in wp.objs[head_var].elts:
+                toks = flatten_fstring(e)
+                if toks is not None and len(toks) == 1 and \
+                        toks[0][0] == "val" and isinstance(
+                        toks[0][1], ast.Attribute) and isinstance(
+                        toks[0][1].value, ast.Name) and \
+                        toks[0][1].value.id == selfn:
+                    head.append(toks[0][1].attr)
+                else:
+                    head.append("?" + ast.unparse(e)[:30])
+        if len(loops) == 1 and head_var is not None:
+            lp = loops[0].node
+            w_loop_ok = isinstance(lp, ast.For) and isinstance(
+                lp.target, ast.Name) and ast.unparse(lp.iter).replace(
+                " ", "") == f"range({selfn}.n_different_items)"
+            ivar = lp.target.id if isinstance(lp.target, ast.Name) else "?"
+            for q in paths(lp.body, Path(env=dict(loops[0].extra))):
+                apps = [e for e in q.events if e.kind == "expr"
+                        and isinstance(e.value, ast.Call) and isinstance(
+                            e.value.func, ast.Attribute)
+                        and e.value.func.attr == "append"
+                        and ast.unparse(e.value.func.value) == head_var
+                        and len(e.value.args) == 1]
+                others = [e for e in q.events if e not in apps]
+                if len(apps) != 1 or others or q.ended:
+                    w_problems.append("an iteration does not append exactly "
+                                      "one string per item")
+                    continue
+                toks = flatten_fstring(apps[0].value.args[0]) or []
+                norm: list[tuple[str, Any]] = []
+                for k, v in toks:
+                    if k == "lit":
+                        norm.append(("sep", v))
+                    elif sconst(v) is not None:
+                        norm.append(("sep", sconst(v)))
+                    elif isinstance(v, ast.Subscript) and isinstance(
+                            v.value, ast.Name) and v.value.id == selfn and \
+                            isinstance(v.slice, ast.Tuple) and len(
+                            v.slice.elts) == 2 and ast.unparse(
+                            v.slice.elts[0]) == ivar and iconst(
+                            v.slice.elts[1]) is not None:
+                        norm.append(("col", iconst(v.slice.elts[1])))
+                    else:
+                        norm.append(("?", ast.unparse(v)[:30]))
+                w_alts.append((q.guards, norm))
+    else:
+        w_problems.append("to_compact_str is not straight-line code around "
+                          "one loop")
+    # ================================================================ reader
+    data = rd.params[0]
+    r_head: dict[int, ast.expr] = {}
     split_seps: list[str] = []
-    for n in ast.walk(rd.node):
-        if isinstance(n, (ast.Assign, ast.AnnAssign)) and n.value is not None:
-            tg = n.targets[0] if isinstance(n, ast.Assign) else n.target
-            for sub in ast.walk(n.value):
-                if isinstance(sub, ast.Subscript) and isinstance(
-                        sub.value, ast.Name) and sub.value.id == "text":
-                    k = repo.const(mod, sub.slice)
-                    if isinstance(k, int) and isinstance(tg, ast.Name):
-                        r_head[k] = tg.id
-        if isinstance(n, ast.Call) and isinstance(
-                n.func, ast.Attribute) and n.func.attr == "split" and \
-                n.args and isinstance(n.args[0], ast.Name):
-            split_seps.append(n.args[0].id)
-        if isinstance(n, ast.List) and len(n.elts) == 3:
-            for e in n.elts:
-                cols = [x.slice.id for x in ast.walk(e) if isinstance(
-                    x, ast.Subscript) and isinstance(x.slice, ast.Name)
-                    and x.slice.id.startswith("IDX_")]
-                r_item.append(cols[0] if cols else "?")
-    want_head = [r_head.get(i) for i in range(len(head or []))]
-    ok_head = head is not None and want_head == head
-    ctx.ob("D19.2", wr, wr.node, ok_head,
-           f"compact string head fields: writer {head}, reader {want_head}",
-           construct="compact head fields")
-    ok_items = bool(w_item) and all(
-        f == r_item[:len(f)] for f in w_item) and sorted(
-        len(f) for f in w_item) == [2, 3] and r_item == [
-        "IDX_WIDTH", "IDX_HEIGHT", "IDX_REPETITION"]
+    r_problems: list[str] = []
+    call = None
+    rows: list[tuple[tuple, list[Any]]] = []
+    item_idx_ok = False
+    matrix_ok = False
+    # the type test at the top raises: follow the path that returns
+    rpaths = [q for q in paths(func_body(rd)) if q.ended == "return"]
+
+    def field_of(e: ast.expr) -> tuple | None:
+        """conv(...data.split(A)[k]...) -> ("head", A, k-expr)
+        conv(data.split(A)[k].split(B)[c]) -> ("cell", A, k-expr, B, c)."""
+        while isinstance(e, ast.Call) and isinstance(
+                e.func, ast.Name) and e.func.id in (
+                "check_to_int_range", "int", "str", "check_int_range") \
+                and e.args:
+            e = e.args[0]
+        if not isinstance(e, ast.Subscript):
+            return None
+        base, idx = e.value, e.slice
+        if isinstance(base, ast.Call) and isinstance(
+                base.func, ast.Attribute) and base.func.attr == "split" \
+                and len(base.args) == 1:
+            sepv = sconst(base.args[0])
+            src = base.func.value
+            if isinstance(src, ast.Name) and src.id == data:
+                return ("head", sepv, idx)
+            inner = field_of(src)
+            if inner is not None and inner[0] == "head":
+                return ("cell", inner[1], inner[2], sepv, idx)
+        return None
+    if len(rpaths) == 1:
+        rp = rpaths[0]
+        ret = next(e for e in rp.events if e.kind == "return")
+        if isinstance(ret.value, ast.Call) and isinstance(
+                ret.value.func, ast.Name) and ret.value.func.id == \
+                "Instance" and not ret.value.keywords and len(
+                ret.value.args) == len(cparams):
+            call = ret.value
+        loops = [e for e in rp.events if e.kind == "loop"]
+        if call is not None:
+            for k, a in enumerate(call.args[:-1]):
+                f = field_of(a)
+                if f is not None and f[0] == "head" and iconst(
+                        f[2]) is not None:
+                    r_head[k] = a
+                    split_seps.append(f[1])
+        if len(loops) == 1 and call is not None:
+            lp = loops[0].node
+            # the matrix passed to the constructor: a list that starts
+            # empty and receives the rows
+            mat_var = call.args[-1].id if isinstance(
+                call.args[-1], ast.Name) else None
+            matrix_ok = mat_var is not None and isinstance(
+                rp.objs.get(mat_var), ast.List) and not rp.objs[
+                mat_var].elts
+            ev = make_evaluator(repo, rd, extra_call=py_calls)
+            ev.int_transparent = True
+            for q in paths(lp.body, Path(env=dict(loops[0].extra))):
+                if q.ended == "raise":
+                    continue
+                apps = [e for e in q.events if e.kind == "expr"
+                        and isinstance(e.value, ast.Call) and isinstance(
+                            e.value.func, ast.Attribute)
+                        and e.value.func.attr == "append"
+                        and ast.unparse(e.value.func.value) == mat_var
+                        and len(e.value.args) == 1]
+                rowv = apps[0].value.args[0] if len(apps) == 1 else None
+                if isinstance(rowv, ast.Name) and rowv.id in q.objs:
+                    rowv = q.objs[rowv.id]
+                if len(apps) != 1 or q.ended or not isinstance(
+                        rowv, (ast.List, ast.Tuple)):
+                    r_problems.append("an iteration does not append exactly "
+                                      "one decoded row")
+                    continue
+                rows.append((q.guards, list(rowv.elts)))
+            # positions: the field index as a function of the loop variable
+            if isinstance(lp, ast.For) and isinstance(
+                    lp.target, ast.Name) and isinstance(
+                    lp.iter, ast.Call) and isinstance(
+                    lp.iter.func, ast.Name) and lp.iter.func.id == "range" \
+                    and rows:
+                f0 = field_of(rows[0][1][0]) if rows[0][1] else None
+                try:
+                    env = Env()
+                    i_ = Poly.var("i")
+                    n_ = Poly.var("n")
+                    env.vars[lp.target.id] = i_
+                    # the count is head field 1
+                    from sa.pathinline import subst as _subst
+                    lo_hi = [_subst(a_, loops[0].extra)
+                             for a_ in lp.iter.args]
+
+                    def val(e_: ast.expr) -> Poly:
+                        f_ = field_of(e_)
+                        if f_ is not None and f_[0] == "head" and iconst(
+                                f_[2]) == 1:
+                            return n_
+                        if isinstance(e_, ast.BinOp):
+                            l_, r_ = val(e_.left), val(e_.right)
+                            if isinstance(e_.op, ast.Add):
+                                return l_ + r_
+                            if isinstance(e_.op, ast.Sub):
+                                return l_ - r_
+                        return ev.num(env, e_)
+                    vals = [val(a_) for a_ in lo_hi]
+                    lo_ = Poly.const(0) if len(vals) == 1 else vals[0]
+                    hi_ = vals[-1]
+                    idx = val(f0[2]) if f0 is not None and f0[0] == "cell" \
+                        else None
+                    if idx is not None:
+                        c0 = (idx - i_).const_value()
+                        item_idx_ok = c0 is not None and lo_ + Poly.const(
+                            c0) == Poly.const(4) and hi_ + Poly.const(
+                            c0) == n_ + Poly.const(4)
+                except Unsupported:
+                    item_idx_ok = False
+    else:
+        r_problems.append("from_compact_str does not have exactly one "
+                          "returning path outside its loop")
+    # ================================================================ rules
+    r_names = [None if k not in r_head else "ok" for k in range(4)]
+    head_w = head or []
+    ok_head = head_w[:4] == ["name", "n_different_items", "bin_width",
+                             "bin_height"] and len(head_w) == 4
+    # reader: constructor parameter p (p in head) comes from head field k
+    bind: list[str] = []
+    if call is None:
+        bind.append("Instance(...) is not called with all parameters")
+    else:
+        for pi, pname in enumerate(cparams[:-1]):
+            f = field_of(call.args[pi])
+            kk = iconst(f[2]) if f is not None and f[0] == "head" else None
+            want = head_w.index(pname) if pname in head_w else None
+            if kk is None or kk != want:
+                bind.append(
+                    f"constructor parameter `{pname}` receives field "
+                    f"{kk if kk is not None else '?'} of the string, but "
+                    f"self.{pname} is written as field {want}")
+        if not matrix_ok or r_problems:
+            bind.append("the rows read from the string are not collected "
+                        "into the matrix passed to the constructor")
+    # the count field (n_different_items) drives the reader's loop
+    ctx.ob("D19.2", wr, wr.node, ok_head and not w_problems and w_loop_ok,
+           f"compact string head fields: writer {head_w}, reader reads "
+           "fields 0, 2, 3 into name / bin_width / bin_height and field 1 "
+           "as the item count" if ok_head else
+           f"compact string head fields: writer {head_w}, reader "
+           f"{r_names}", construct="compact head fields")
+    # ---- items: writer token lists vs reader cells
+    w_forms = sorted({tuple(t) for _g, t in w_alts}, key=len)
+    item_sep = {v for f in w_forms for k, v in f if k == "sep"}
+    want2 = [("col", cols["IDX_WIDTH"]), ("col", cols["IDX_HEIGHT"])]
+    want3 = want2 + [("col", cols["IDX_REPETITION"])]
+    ok_w_items = bool(w_forms) and len(item_sep) == 1 and all(
+        [t for t in f if t[0] != "sep"] in (want2, want3)
+        and all(f[j][0] == ("sep" if j % 2 else "col")
+                for j in range(len(f))) for f in w_forms) and any(
+        [t for t in f if t[0] != "sep"] == want3 for f in w_forms)
+    r_cells_ok = bool(rows)
+    cell_seps = set()
+    for _g, elts in rows:
+        if len(elts) != 3:
+            r_cells_ok = False
+            continue
+        for k, e in enumerate(elts):
+            f = field_of(e)
+            if f is not None and f[0] == "cell":
+                cell_seps.add(f[3])
+                if iconst(f[4]) != k:
+                    r_cells_ok = False
+            elif not (k == 2 and iconst(e) == 1):
+                r_cells_ok = False
+    ok_items = ok_w_items and r_cells_ok and [
+        cols["IDX_WIDTH"], cols["IDX_HEIGHT"], cols["IDX_REPETITION"]] == [
+        0, 1, 2]
     ctx.ob("D19.2", wr, wr.node, ok_items,
-           f"per-item fields: writer {w_item}, reader row {r_item}",
+           f"per-item fields: writer {[list(f) for f in w_forms]}, reader "
+           "row = [cell 0, cell 1, cell 2 or 1]" if ok_items else
+           f"per-item fields: writer {[list(f) for f in w_forms]}, reader "
+           f"rows {[[ast.unparse(e)[:40] for e in el] for _g, el in rows][:2]}",
            construct="compact item fields")
-    ok_sep = join_sep is not None and join_sep in split_seps and \
-        seps and seps <= set(split_seps)
+    ok_sep = join_sep is not None and bool(split_seps) and all(
+        x == join_sep for x in split_seps) and len(item_sep) == 1 and \
+        cell_seps == item_sep and join_sep not in item_sep
     ctx.ob("D19.2", rd, rd.node, bool(ok_sep),
-           f"writer joins with {join_sep} / {sorted(seps)}, reader splits "
-           f"on {split_seps}", construct="compact separators")
-    # the loop over the items starts after the 4 head fields
-    loop = next((n for n in ast.walk(rd.node) if isinstance(n, ast.For)),
-                None)
-    ok_loop = loop is not None and ast.unparse(loop.iter).replace(
-        " ", "") in ("range(4,n_different_items+4)",
-                     "range(4,4+n_different_items)")
-    ctx.ob("D19.2", rd, loop or rd.node, ok_loop,
+           f"writer joins with {join_sep!r} / {sorted(item_sep)}, reader "
+           f"splits on {sorted(set(split_seps))} / {sorted(cell_seps)}",
+           construct="compact separators")
+    ctx.ob("D19.2", rd, rd.node, item_idx_ok,
            "item fields are read from positions 4 .. n_different_items+3",
            construct="compact item positions")
-    # repetition defaults to 1 exactly when the writer omits it
-    src_w = ast.unparse(wr.node)
-    src_r = ast.unparse(rd.node)
-    del src_w, src_r
-    # writer: the 2-field form is emitted exactly when the multiplicity is 1
-    ok_rep_w = False
-    for n in ast.walk(wr.node):
-        if isinstance(n, ast.IfExp) and isinstance(
-                n.body, ast.JoinedStr) and isinstance(
-                n.orelse, ast.JoinedStr) and isinstance(
-                n.test, ast.Compare) and len(n.test.ops) == 1:
-            def nf(js: ast.JoinedStr) -> int:
-                return sum(1 for v in js.values if isinstance(
-                    v, ast.FormattedValue) and isinstance(
-                    v.value, ast.Name) and not v.value.id.endswith("SEP"))
-            tv = ast.unparse(n.test.left)
-            one = repo.const(mod, n.test.comparators[0]) == 1
-            rep_var = col_of.get(tv) == "IDX_REPETITION"
-            if one and rep_var:
-                if isinstance(n.test.ops[0], ast.Eq):
-                    ok_rep_w = nf(n.body) == 2 and nf(n.orelse) == 3
-                elif isinstance(n.test.ops[0], (ast.NotEq, ast.Gt)):
-                    ok_rep_w = nf(n.body) == 3 and nf(n.orelse) == 2
-    # reader: a row without third field gets multiplicity 1
-    ok_rep_r = False
-    for n in ast.walk(rd.node):
-        if isinstance(n, ast.IfExp) and isinstance(
-                n.test, ast.Compare) and len(n.test.ops) == 1:
-            t = n.test
-            if ast.unparse(t.left).replace(" ", "") == "len(s)" and \
-                    isinstance(t.comparators[0], ast.Name) and \
-                    t.comparators[0].id == "IDX_REPETITION":
-                short_true = isinstance(t.ops[0], ast.LtE)
-                short_false = isinstance(t.ops[0], ast.Gt)
-                dflt = n.body if short_true else n.orelse
-                ok_rep_r = (short_true or short_false) and repo.const(
-                    mod, dflt) == 1
+    # ---- multiplicity default
+    ev2 = make_evaluator(repo, wr, extra_call=py_calls)
+    ev2.int_transparent = True
+    from sa.casesplit import equivalent
+    from sa.symterm import _eq, c_and, c_not
+    rep = Poly.var("rep")
+
+    def w_guard(gs: tuple) -> tuple | None:
+        env = Env()
+        cs = []
+        for tst, truth in gs:
+            class R(ast.NodeTransformer):
+                def visit_Subscript(self, n: ast.Subscript) -> ast.AST:
+                    if isinstance(n.slice, ast.Tuple) and len(
+                            n.slice.elts) == 2 and iconst(
+                            n.slice.elts[1]) == cols["IDX_REPETITION"]:
+                        return ast.Name(id="rep$", ctx=ast.Load())
+                    return n
+            import copy as _copy
+            t2 = ast.fix_missing_locations(R().visit(_copy.deepcopy(tst)))
+            env.vars["rep$"] = rep
+            try:
+                c = ev2.cond(env, t2)
+            except Unsupported:
+                return None
+            cs.append(c if truth else c_not(c))
+        return c_and(*cs) if cs else ("true",)
+    ok_rep_w = bool(w_alts)
+    for gs, toks in w_alts:
+        g = w_guard(gs)
+        short = len([t for t in toks if t[0] != "sep"]) == 2
+        if g is None:
+            ok_rep_w = False
+        elif short and not equivalent(c_and(g, c_not(_eq(
+                rep, Poly.const(1)))), ("false",))[0]:
+            ok_rep_w = False     # 2-field form although multiplicity != 1
+    ln = Poly.var("len")
+
+    def r_guard(gs: tuple) -> tuple | None:
+        cs = []
+        env = Env()
+        env.vars["len$"] = ln
+        for tst, truth in gs:
+            class R2(ast.NodeTransformer):
+                def visit_Call(self, n: ast.Call) -> ast.AST:
+                    if isinstance(n.func, ast.Name) and n.func.id == "len" \
+                            and len(n.args) == 1 and isinstance(
+                            n.args[0], ast.Call) and isinstance(
+                            n.args[0].func, ast.Attribute) and \
+                            n.args[0].func.attr == "split":
+                        return ast.Name(id="len$", ctx=ast.Load())
+                    return self.generic_visit(n)
+            import copy as _copy
+            t2 = ast.fix_missing_locations(R2().visit(_copy.deepcopy(tst)))
+            try:
+                c = ev2.cond(env, t2)
+            except Unsupported:
+                return None
+            cs.append(c if truth else c_not(c))
+        return c_and(*cs) if cs else ("true",)
+    ok_rep_r = bool(rows)
+    two, three = Poly.const(2), Poly.const(3)
+    for gs, elts in rows:
+        g = r_guard(gs)
+        if g is None or len(elts) != 3:
+            ok_rep_r = False
+            continue
+        dflt = iconst(elts[2]) == 1 and field_of(elts[2]) is None
+        if dflt:
+            # default only when there is no third cell (len <= 2)
+            if not equivalent(c_and(g, ("le", three, ln)), ("false",))[0]:
+                ok_rep_r = False
+        else:
+            # the third cell is read only when it exists (len >= 3)
+            if not equivalent(c_and(g, ("le", ln, two)), ("false",))[0]:
+                ok_rep_r = False
+    if rows and not any(iconst(el[2]) == 1 and field_of(el[2]) is None
+                        for _g, el in rows if len(el) == 3) and any(
+            len([t for t in toks if t[0] != "sep"]) == 2
+            for _g, toks in w_alts):
+        ok_rep_r = False          # the writer omits a field nobody defaults
     ctx.ob("D19.2", rd, rd.node, ok_rep_w and ok_rep_r,
            "the writer omits the multiplicity exactly when it is 1 and the "
            "reader supplies 1 exactly when the field is missing"
            if ok_rep_w and ok_rep_r else
            f"multiplicity default broken: writer ok={ok_rep_w}, reader ok="
            f"{ok_rep_r}", construct="compact multiplicity default")
-    # the decoded quantities reach the constructor parameters they belong to
-    new_fi = repo.func(mod.name, "Instance.__new__")
-    cparams = new_fi.params[1:]
-    call = next((n for n in ast.walk(rd.node) if isinstance(n, ast.Call)
-                 and isinstance(n.func, ast.Name)
-                 and n.func.id == "Instance"), None)
-    bind: list[str] = []
-    if call is None or call.keywords or len(call.args) != len(cparams):
-        bind.append("Instance(...) is not called with all parameters")
-    else:
-        for k, attr in enumerate(head or []):
-            if attr in cparams:
-                a = call.args[cparams.index(attr)]
-                if not (isinstance(a, ast.Name) and a.id == r_head.get(k)):
-                    bind.append(
-                        f"constructor parameter `{attr}` receives "
-                        f"`{ast.unparse(a)}`, but field {k} of the string "
-                        f"(written from self.{attr}) is read into "
-                        f"`{r_head.get(k)}`")
-        lst = call.args[-1]
-        apps = [n for n in ast.walk(loop or rd.node) if isinstance(
-            n, ast.Call) and isinstance(n.func, ast.Attribute)
-            and n.func.attr == "append" and ast.unparse(
-                n.func.value) == ast.unparse(lst)]
-        if len(apps) != 1 or loop is None:
-            bind.append("the rows read from the string are not collected "
-                        "into the matrix passed to the constructor")
-    ctx.ob("D19.2", rd, call or rd.node, not bind,
+    ctx.ob("D19.2", rd, rd.node, not bind,
            "name, bin width and bin height are passed to the constructor "
            "parameters they were written from; every decoded row is "
            "appended to the matrix" if not bind else "; ".join(bind),
